@@ -186,6 +186,23 @@ def arith (op : BinaryOperator) (l r : Int) : Option Int :=
 
 def represent (x : Int) : Option Int := if InRange x then some x else none
 
+/-- why an operation has no value: the cases the property names ("overflow, division by zero, negative or
+    oversize shift counts"), in the order C 6.5.5/6.5.7 state their conditions -/
+inductive Reason where
+  | divisionByZero            -- 6.5.5p5: the second operand of / or % is zero
+  | leftShiftOfNegative       -- 6.5.7p4: E1 of `E1 << E2` is negative
+  | negativeShiftCount        -- 6.5.7p3: the right operand of a shift is negative
+  | unrepresentable           -- 6.5p5: the result is not representable (incl. a shift count >= the width)
+  deriving DecidableEq, Repr
+
+/-- the reason `l a r` has no value; `none` = it has one -/
+def why (a : Arith) (l r : Int) : Option Reason :=
+  if (a = .div ∨ a = .rem) ∧ r = 0 then some .divisionByZero
+  else if a = .shl ∧ l < 0 then some .leftShiftOfNegative
+  else if (a = .shl ∨ a = .shr) ∧ r < 0 then some .negativeShiftCount
+  else if ¬ (definedA a l r ∧ InRange (exactA a l r)) then some .unrepresentable
+  else none
+
 /-! ## integer constants (C 6.4.4.1 without suffixes) and variable values -/
 
 def digitOf (c : Char) : Nat :=
